@@ -1,5 +1,6 @@
 (* C02 — no spurious or duplicated matches. *)
-From CPF Require Import Engine.Query Engine.QueryFacts.
+From CPF Require Import Engine.Eval Engine.EvalFacts Engine.Query Engine.QueryFacts.
+From Coq Require Import ZArith.
 
 (* every reported combination consists of entities of the graph, of the FROM kinds in FROM order,
    and makes the condition true *)
@@ -35,3 +36,10 @@ Proof.
   intro t. apply candidates_iff.
 Qed.
 Print Assumptions C02_cross_product.
+
+(* the evaluator model the statements above are about never leaves the range of expr-lang's 64-bit integers: at the
+   border (a literal beyond it, a sum or product or negation that would wrap around in Go) it answers OutOfFragment,
+   and such queries are excluded by the hypotheses instead of being judged by arithmetic the engine does not do *)
+Theorem C02_integers_stay_64bit : forall env e z, eval env e = Val (VI z) -> in_int64 z = true.
+Proof. exact eval_int_range. Qed.
+Print Assumptions C02_integers_stay_64bit.
